@@ -32,13 +32,29 @@ Definition ids_of (ns : list el) : list Z := flat_map e_ids ns.
 
 Record outcome := mkOut { o_nodes : list el; o_removed : list Z }.
 
-(* DirectProxyAccessor._delete for one target element *)
-Definition delete (ns : list el) (t : Z) : outcome :=
-  let inT := fun n => below ns [t] (e_h n) in
+(* DirectProxyAccessor._delete for the target elements [ts] (one for `del lst[i]`, several for `del lst[a:b]`,
+   `del obj.attr`, a declarative `delete:` with several entries): every reference from outside into any of the subtrees
+   is purged — also when one holder's relation refers to several of the deleted objects *)
+Definition delete_many (ns : list el) (ts : list Z) : outcome :=
+  let inT := fun n => below ns ts (e_h n) in
   let tids := ids_of (filter inT ns) in
   let links := map e_h (filter (fun n => negb (inT n) && match e_link n with Some u => memz u tids | None => false end) ns) in
   let gone := fun n => inT n || below ns links (e_h n) in
   let purge := fun r => if ra_exposed r then mkRef (ra_name r) true (filter (fun u => negb (memz u tids)) (ra_targets r)) else r in
+  mkOut (map (fun n => mkEl (e_h n) (e_par n) (e_ids n) (map purge (e_refs n)) (e_link n)) (filter (fun n => negb (gone n)) ns))
+        (map e_h (filter gone ns)).
+Definition delete (ns : list el) (t : Z) : outcome := delete_many ns [t].
+
+(* a purge that handles each (holder, relation) pair only once — for the first deleted object it meets — as a seeded
+   change to _delete did: remove_first drops one deleted target per exposed attribute, and only the link elements that
+   follow the FIRST deleted id of their parent's relation go *)
+Fixpoint remove_first (f : Z -> bool) (l : list Z) : list Z :=
+  match l with [] => [] | x :: r => if f x then r else x :: remove_first f r end.
+Definition delete_many_once (ns : list el) (ts : list Z) : outcome :=
+  let inT := fun n => below ns ts (e_h n) in
+  let tids := ids_of (filter inT ns) in
+  let gone := fun n => inT n in
+  let purge := fun r => if ra_exposed r then mkRef (ra_name r) true (remove_first (fun u => memz u tids) (ra_targets r)) else r in
   mkOut (map (fun n => mkEl (e_h n) (e_par n) (e_ids n) (map purge (e_refs n)) (e_link n)) (filter (fun n => negb (gone n)) ns))
         (map e_h (filter gone ns)).
 
@@ -73,13 +89,13 @@ Definition enc_el_refs (n : el) : val :=
 (* input [nodes; target; watched handles]  ->  [removed handles (document order); refs of the watched survivors] *)
 Definition w_delete (v : val) : val :=
   match v with
-  | VL [VL ns; VZ t; ws] =>
-      match all_some (map dec_el ns), dec_zs ws with
-      | Some ns, Some ws =>
-          let o := delete ns t in
+  | VL [VL ns; tv; ws] =>
+      match all_some (map dec_el ns), dec_zs ws, (match tv with VZ t => Some [t] | _ => dec_zs tv end) with
+      | Some ns, Some ws, Some ts =>
+          let o := delete_many ns ts in
           VL [VL (map VZ (o_removed o));
               VL (map enc_el_refs (filter (fun n => memz (e_h n) ws) (o_nodes o)))]
-      | _, _ => bad
+      | _, _, _ => bad
       end
   | _ => bad
   end.
